@@ -148,6 +148,7 @@ class Exec:
         self.pre_slots = {}
         self.events_log = []
         self.patches = set(patches)
+        self.shadows = []
         for ty, name in members:
             self.declare_member(ty, name)
 
@@ -735,6 +736,8 @@ class Exec:
     def declare_local(self, ty, name, init_e, form, g):
         if name in self.scopes[-1]:
             raise IllTyped(f"'{name}' declared twice in the same scope")
+        if any(name in sc for sc in self.scopes[:-1]):
+            self.shadows.append(name)
         self.fresh += 1
         gg = And(g, self.alive)
         if ty == "auto":
